@@ -34,7 +34,7 @@ PROPS = {
 }
 # runs per flavour; sizes; determinism-gate sample; wall-clock cap of the sweeps (s)
 TIERS = {
-    "quick": dict(runs=dict(C03=40000, C04=40000, C05=30000, C08=12000, C12=30000, C17=60000, C18=12000, C19=20000), maxlog=9, maxlog_tree=6, max_copy=9000, gate=200, cap_s=150, cold=320),
+    "quick": dict(runs=dict(C03=40000, C04=40000, C05=30000, C08=12000, C12=30000, C17=60000, C18=12000, C19=20000), maxlog=9, maxlog_tree=6, max_copy=20000, gate=200, cap_s=150, cold=320),
     "thorough": dict(runs=dict(C03=60000, C04=50000, C05=50000, C08=30000, C12=60000, C17=120000, C18=24000, C19=40000), maxlog=12, maxlog_tree=8, max_copy=70000, gate=3000, cap_s=900, cold=3200),
 }
 MAX_FAILING_RUNS = 400  # a sweep stops once this many of its runs failed
@@ -875,7 +875,7 @@ EXPECTED_PROBES = {
     "C08": ["rows==1", "rowlen%8!=0", "rowlen<=4_passthrough", "cols==0", "batch_not_dividing_cols", "batch>=cols", "merkle_nThreads0_after_icv_perturb", "dim>1", "team>trip_count", "fault_free_configuration"],
     "C12": ["team>trip_count", "team==trip_count", "team<trip_count", "team==1", "three_members_in_flight", "shortfall_fired", "limit_capped", "team>=64", "team>64", "main_before_reference"],
     "C17": ["copy_size0", "copy_threads<1", "copy_threads>size", "copy_last_chunk_short", "copy_threads_huge"],
-    "C18": ["object_destroyed_after_extend", "object_destroyed", "rows==1", "size==1"],
+    "C18": ["object_destroyed_after_extend", "object_destroyed", "rows==1", "size==1", "object_for_maxDomainSize_0", "garbage_differential_run"],
     "C19": ["object_reused", "second_extend_with_different_N", "size<maxDomain", "merkle_nThreads0_after_icv_perturb"],
 }
 
